@@ -26,6 +26,12 @@ var walkExceptions = []walkException{
 	{"ir.markStmtExprRefsForCompact/StatementKind", "StmtImageAtomic.Fun", "image atomics carry no Compare handle (rule imageatomic.nocompare)"},
 	{"ir.remapStmtExprHandlesCompact/StatementKind", "StmtImageAtomic.Fun", "image atomics carry no Compare handle (rule imageatomic.nocompare)"},
 	{"ir.remapStmtExprHandles/StatementKind", "StmtImageAtomic.Fun", "image atomics carry no Compare handle (rule imageatomic.nocompare)"},
+	// --- "does this block end in a return / contain a loop-level break" predicates: a loop body is not a fall-through path
+	{"wgsl/internal/lower.ensureBlockReturns/StatementKind", "StmtLoop", "return-path analysis: a value returned inside a loop does not make the enclosing block return on all paths; loops are deliberately not descended"},
+	{"hlsl/internal/codegen.hlslBlockEndsWithReturn/StatementKind", "StmtLoop", "ends-with-return predicate: loops are deliberately not descended"},
+	{"msl/internal/codegen.blockEndsWithReturn/StatementKind", "StmtLoop", "ends-with-return predicate: loops are deliberately not descended"},
+	{"dxil.blockHasBreakContinue/StatementKind", "StmtLoop", "break/continue inside a nested loop bind to that loop, so nested loops are deliberately not descended"},
+	{"msl/internal/codegen.adjustBlockHandles/StatementKind", "StmtImageAtomic.Fun", "image atomics carry no Compare handle (rule imageatomic.nocompare)"},
 }
 
 func inPkgs(prefixes ...string) func(string) bool {
@@ -58,6 +64,7 @@ func (c *Ctx) runWalkAll(r *Report, rulePrefix, family string, pkg func(string) 
 		{hOverride, []string{"ExpressionKind", "OverrideInitExpr"}},
 		{blockSpec, []string{"StatementKind"}},
 	}
+	remapFuncs := map[*types.Func]bool{}
 	for _, s := range specs {
 		cfg := handlewalkConfig{
 			Rule: rulePrefix + "." + s.h.Name, Handle: s.h, Sums: s.sums, PkgFilter: pkg, FuncFilter: fn,
@@ -66,17 +73,64 @@ func (c *Ctx) runWalkAll(r *Report, rulePrefix, family string, pkg func(string) 
 		if s.h.Name == "Block" {
 			// block recursion: a statement walker that descends into 3 of the 4
 			// block-bearing kinds must descend into all of them; there is no
-			// "renumbering" of blocks, so no remapper role
+			// "renumbering" of blocks, so no remapper role. When only remappers
+			// are judged, only functions that renumber some handle family are.
 			cfg.Remappers = false
-			cfg.Walkers = walkers || remappers
+			cfg.Walkers = true
 			cfg.MinCarrying = 4
+			if !walkers {
+				cfg.FuncFilter = func(v *visitor) bool {
+					return (fn == nil || fn(v)) && v.Func.Obj != nil && remapFuncs[v.Func.Obj]
+				}
+			}
 		}
-		c.runHandlewalk(r, cfg)
+		for f, role := range c.runHandlewalk(r, cfg) {
+			if role == "remapper" {
+				remapFuncs[f] = true
+			}
+		}
 	}
 }
 
 func init() {
 	register("C13", propC13)
+	register("C09", propC09)
+	register("C14", propC14)
+}
+
+func propC09(c *Ctx, r *Report) {
+	r.Clauses = append(r.Clauses,
+		"E3 handlewalk over the compaction/reordering/dedup passes that wgsl.LowerWithWarnings runs on every module (functions of package ir reachable from it): every remapper rewrites and every reachability tracer reads every handle field of every node kind, blocks are recursed into completely, rebuilt nodes keep all fields; producer-side fact that image atomics never carry a compare handle")
+	r.NotDecided = append(r.NotDecided,
+		"typing correctness, deduplication of structurally equal types, 'exactly one emit range precedes all uses', return-on-all-paths, binding completeness; anything about the values of the remap tables")
+	ents := c.entries(r, "wgsl.LowerWithWarnings", "wgsl.LowerWithSource", "wgsl.Lower")
+	reach := c.reach(ents...)
+	r.Extra["functions_reachable_from_lowering"] = len(reach)
+	c.runWalkAll(r, "handlewalk", "lowering", inPkgs("ir", "wgsl/internal/lower", "internal/registry"), reachFilter(reach), true, true, nil)
+	c.runRebuild(r, "rebuild.complete", "lowering.rebuilds", func(rel string) bool { return rel == "ir" || rel == "wgsl/internal/lower" }, lowerRebuildExceptions)
+	c.ruleImageAtomicNoCompare(r)
+	r.floor("lowering.ExpressionHandle.remappers", 4)
+	r.floor("lowering.ExpressionHandle.walkers", 2)
+	r.floor("lowering.TypeHandle.remappers", 2)
+	r.floor("lowering.Block.walkers", 5)
+	r.floor("lowering.rebuilds", 10)
+}
+
+var lowerRebuildExceptions = []rebuildException{}
+
+func propC14(c *Ctx, r *Report) {
+	r.Clauses = append(r.Clauses,
+		"E3 handlewalk over override resolution: every function reachable from ir.ProcessOverrides and every handle remapper of the MSL pipeline-constant path (package msl/internal/codegen) rewrites every handle field of every node kind it renumbers, never cross-wires fields, recurses into all blocks, and rebuilt nodes keep all fields")
+	r.NotDecided = append(r.NotDecided,
+		"numeric conversion of supplied values, evaluation semantics of initialisers, which overrides are substituted; that resolution leaves the caller's module untouched is decided under C12's ownership clause")
+	ents := c.entries(r, "ir.ProcessOverrides", "ir.CloneModuleForOverrides", "msl.Compile", "glsl.Compile")
+	reach := c.reach(ents...)
+	c.runWalkAll(r, "handlewalk", "overrides", inPkgs("ir", "msl/internal/codegen", "glsl/internal/codegen", "hlsl/internal/codegen"), func(v *visitor) bool {
+		return v.Func.Obj != nil && reach[v.Func.Obj]
+	}, true, false, nil)
+	c.runRebuild(r, "rebuild.complete", "overrides.rebuilds", inPkgs("ir", "msl/internal/codegen"), nil)
+	r.floor("overrides.ExpressionHandle.remappers", 8)
+	r.floor("overrides.rebuilds", 20)
 }
 
 func propC13(c *Ctx, r *Report) {
